@@ -889,7 +889,31 @@ func (d *c05Run) pmtGetters(pm psi.PMT) bool {
 }
 
 // pmtStage: NewPMT and friends on a payload; filter on the packets when given.
+// tight returns a copy whose capacity equals its length, so that a slice expression that
+// runs past the data panics instead of quietly reading spare capacity.
+func tight(b []byte) []byte {
+	t := make([]byte, len(b))
+	copy(t, b)
+	return t[:len(b):len(b)]
+}
+
 func (d *c05Run) pmtStage(in []byte, pkts []*packet.Packet, s *C05Script) bool {
+	in = tight(in)
+	// the same payload cut short by a few bytes (a section that ends just outside the data)
+	for _, cut := range []int{1, 2, 3, 4, 5} {
+		if len(in) > cut {
+			pre := tight(in[:len(in)-cut])
+			if !d.ro("psi.ExtractCRC(prefix)", pre, func() { psi.ExtractCRC(pre) }) {
+				return false
+			}
+			if !d.ro("psi.NewPMT(prefix)", pre, func() { psi.NewPMT(pre) }) {
+				return false
+			}
+			if !d.ro("psi.PmtAccumulatorDoneFunc(prefix)", pre, func() { psi.PmtAccumulatorDoneFunc(pre) }) {
+				return false
+			}
+		}
+	}
 	var pm psi.PMT
 	var err error
 	if !d.ro("psi.NewPMT", in, func() { pm, err = psi.NewPMT(in) }) {
@@ -992,6 +1016,7 @@ func (d *c05Run) psiAccessors(in []byte) bool {
 }
 
 func (d *c05Run) patStage(in []byte) bool {
+	in = tight(in)
 	var p psi.PAT
 	var err error
 	if !d.ro("psi.NewPAT", in, func() { p, err = psi.NewPAT(in) }) {
@@ -1007,6 +1032,7 @@ func (d *c05Run) patStage(in []byte) bool {
 
 // scte: decoder + second stage on a payload.
 func (d *c05Run) scte(in []byte, how string) bool {
+	in = tight(in)
 	var sc scte35.SCTE35
 	var err error
 	if !d.ro("scte35.NewSCTE35", in, func() { sc, err = scte35.NewSCTE35(in) }) {
@@ -1152,6 +1178,7 @@ func (d *c05Run) ebp(pkt *packet.Packet) bool {
 }
 
 func (d *c05Run) ebpBytes(eb []byte) bool {
+	eb = tight(eb)
 	var bp ebp.EncoderBoundaryPoint
 	var err error
 	if !d.ro("ebp.ReadEncoderBoundaryPoint", eb, func() { bp, err = ebp.ReadEncoderBoundaryPoint(eb) }) {
@@ -1207,6 +1234,7 @@ func (d *c05Run) pesStage(pkt *packet.Packet) bool {
 }
 
 func (d *c05Run) pesBytes(hb []byte) bool {
+	hb = tight(hb)
 	var ph pes.PESHeader
 	var err error
 	if !d.ro("pes.ExtractTime", hb, func() { pes.ExtractTime(hb); pes.CheckLength(hb, "x", len(hb)+1) }) {
@@ -1348,7 +1376,7 @@ func (d *c05Run) packetBattery(pkt *packet.Packet, pat psi.PAT) bool {
 		return false
 	}
 	if perr == nil {
-		cp := append([]byte(nil), pay...)
+		cp := tight(pay)
 		if !d.psiAccessors(cp) {
 			return false
 		}
@@ -1447,6 +1475,32 @@ func (d *c05Run) restamp(pkt, other *packet.Packet, k int) bool {
 			{"Packet.SetPayload after edits", func() { q.SetPayload(data) }},
 		} {
 			if !d.call(s.n, s.f) {
+				return false
+			}
+		}
+		// data of exactly the length a (possibly damaged) length byte announces: the length byte
+		// of private data / extension is one of the bytes 6..19 of the packet
+		seen := map[byte]bool{}
+		for i := 6; i < 20; i++ {
+			n := pkt[i]
+			if seen[n] {
+				continue
+			}
+			seen[n] = true
+			cpn := *pkt
+			var afn *packet.AdaptationField
+			if !d.call("Packet.AdaptationField", func() { afn, _ = (&cpn).AdaptationField() }) {
+				return false
+			}
+			if afn == nil {
+				break
+			}
+			buf := make([]byte, int(n))
+			if !d.call("AdaptationField.SetTransportPrivateData(len from packet)", func() { afn.SetTransportPrivateData(buf) }) {
+				return false
+			}
+			cpn = *pkt
+			if !d.call("AdaptationField.SetAdaptationFieldExtension(len from packet)", func() { afn.SetAdaptationFieldExtension(buf) }) {
 				return false
 			}
 		}
